@@ -20,9 +20,8 @@ import WcModel.Proofs.GlobSplitShape
     * `split_lit_noslash`  a literal (non-magic) part other than the drive contains no `/` at all:
                            it is a single path segment
       `split_inner_slash`  a `/` inside a part needs EXTMATCH, a `(` in the part, and the part is
-                           magic — and this DOES happen: `inner_slash_witness` (`@(a/[b`: the
-                           rewind mark of `parse_extend` is overwritten at `[`, glob.py 266, so the
-                           failed group is not rescanned and its `/` never becomes a split)
+                           magic (a successful group `@(a/b)`; the former leak through a FAILED group,
+                           `@(a/[b`, was defect D30: repaired, see `D30_fixed_witness`)
     * `split_absolute`     the first part is the drive ⇔ the pattern starts with `/`
       `split_noabsolute`   with `_NOABSOLUTE` a successful split has no drive part at all
     * `split_adjacent_globstar`  two adjacent globstars only as  base part :: pattern-initial
@@ -223,15 +222,19 @@ theorem escaped_slash_witness :
       some [⟨"a".toList, false, false, false, true, false⟩, ⟨"b".toList, false, false, false, false, false⟩] ∧
     splitSummary {} "\\/" = some [⟨[], false, false, false, true, false⟩] := by decide +kernel
 
-/-- a separator *inside* a part is possible, though: an unterminated extended group swallows
-    it (the part is magic, and its regex can match no file name) -/
-theorem inner_slash_witness :
+/-- D30 (repaired by a `fix:` commit): `parse_extend` of `_GlobSplit` used to overwrite its rewind
+    mark at a `[`, so after `@(a/[b` failed as a group the scanner resumed just after the `[` and
+    the `/` inside never became a split point: `glob('@(a/[b', EXTGLOB)` returned nothing although
+    the file exists and `globmatch` accepted it.  With the repaired mark the failed group is
+    rescanned like any other text; this witness fails again if the defect returns.
+    (A separator inside a part is still possible for a *successful* group: `@(a/b)`.) -/
+theorem D30_fixed_witness :
     splitSummary { extmatch := true } "@(a/[b" =
-      some [⟨"@(a/[b".toList, true, false, false, false, false⟩] ∧
-    -- without the `[` the failed group is rescanned and its `/` splits:
+      some [⟨"@(a".toList, true, false, false, true, false⟩, ⟨"[b".toList, true, false, false, false, false⟩] ∧
     splitSummary { extmatch := true } "@(a/b" =
       some [⟨"@(a".toList, true, false, false, true, false⟩, ⟨"b".toList, false, false, false, false, false⟩] ∧
-    -- and without EXTMATCH there is no group at all:
+    splitSummary { extmatch := true } "@(a/b)" =
+      some [⟨"@(a/b)".toList, true, false, false, false, false⟩] ∧
     splitSummary {} "@(a/[b" =
       some [⟨"@(a".toList, false, false, false, true, false⟩, ⟨"[b".toList, true, false, false, false, false⟩] := by
   decide +kernel
